@@ -62,3 +62,65 @@ Theorem C08_state_relabelling_invariant_real :
     = mk (fun n : nat => @mexp n) a S Rs k t.
 Proof. by move=> *; apply: real_mk_permutation. Qed.
 Print Assumptions C08_state_relabelling_invariant_real.
+
+(* ------------------------------------------------------------------------------------------------
+   proofs/SpaceFactsAllRates.v: deme-permutation equivariance for EVERY REAL VALUATION of the rates.
+   The model of the state-space construction is run once with the population time scales, the
+   migration rates and the recombination rate as SYMBOLS (model/LinForm.v), the criteria of (1) above
+   are decided on the symbolic rates (model/SpaceChecksSym.v) and transported by parametricity to every
+   real valuation [rho : rval] of those symbols: [realP rho nd m lc] is the real parameter record with
+   nd demes, coalescent model m and lineage-counting flag lc whose rates are read off rho.  So the
+   statement no longer depends on a few sample values of the rates; it is bounded only in the sample
+   size and the number of demes ((n, demes) in [perm_groups1] for one locus, in [perm_groups2] for
+   two loci) and, for one locus, in the multiple-merger models ([sym_models]).
+
+   [perm_spec_R P nl nd n sigma states states'] says about the code's algorithm: listing the demes in
+   the order sigma (new position i holds old deme sigma[i]; parameters [perm_params_g OpsR sigma P])
+   (i) the breadth-first construction succeeds on both systems with state lists [states], [states'],
+   and permuting the deme axis of every state maps one list onto the other, (ii) the REAL rate between
+   any two states equals the rate between the permuted states, (iii) every initial distribution, for
+   every sample configuration and number of unlinked samples, corresponds, (iv) tree height, total
+   branch length and unit rewards are unchanged and the reward of deme d is carried to its new
+   position.  The state lists do not depend on the valuation (they are quantified before rho).
+
+   C08_deme_permutation_equivariant_all_rates    for the records [realP rho ..], all rho at once.
+   C08_deme_permutation_equivariant_all_params   the same for ANY real parameter record P with nd time
+                                                 scales and an nd x nd migration matrix whose model is
+                                                 one of [sym_models] (one locus; either state space) or
+                                                 Kingman with lineage counting (two loci). *)
+From PG Require Import base.OpsR model.LinForm model.SpaceChecksSym proofs.SpaceFactsAllRates.
+Module C08_all_rates.
+Local Close Scope ring_scope.
+
+Theorem C08_deme_permutation_equivariant_all_rates :
+  (forall (n nd : nat) (m : cmodel (T:=Q)) (lc : bool) (sigma : list nat),
+     In (n, nd) perm_groups1 -> In m sym_models -> In sigma (deme_perms nd) ->
+     exists states states' : list state, forall rho : rval,
+       perm_spec_R (realP rho nd m lc) 1 nd n sigma states states') /\
+  (forall (n nd : nat) (sigma : list nat),
+     In (n, nd) perm_groups2 -> In sigma (deme_perms nd) ->
+     exists states states' : list state, forall rho : rval,
+       perm_spec_R (realP rho nd Kingman true) 2 nd n sigma states states').
+Proof. exact deme_permutation_equivariant_all_rates. Qed.
+Print Assumptions C08_deme_permutation_equivariant_all_rates.
+
+Theorem C08_deme_permutation_equivariant_all_params :
+  forall (n nd : nat) (sigma : list nat) (P : params (T:=R)),
+    length (p_tscale P) = nd -> length (p_mig P) = nd ->
+    (forall row, In row (p_mig P) -> length row = nd) ->
+    In sigma (deme_perms nd) ->
+    ((In (n, nd) perm_groups1 /\ exists m, In m sym_models /\ p_model P = cmodel_map Q2R m) ->
+       exists states states' : list state, perm_spec_R P 1 nd n sigma states states') /\
+    ((In (n, nd) perm_groups2 /\ p_model P = Kingman /\ p_lc P = true) ->
+       exists states states' : list state, perm_spec_R P 2 nd n sigma states states').
+Proof. exact deme_permutation_equivariant_all_params. Qed.
+Print Assumptions C08_deme_permutation_equivariant_all_params.
+
+Local Open Scope Q_scope.
+Example C08_all_rates_groups :
+  perm_groups1 = [(2,2); (3,2); (4,2); (5,2); (6,2); (2,3); (3,3); (4,3); (2,4)]%nat /\
+  perm_groups2 = [(2,2); (3,2); (4,2); (2,3)]%nat /\
+  sym_models = [Kingman; Beta (3#2) false; Beta (7#4) false; Dirac (1#3) (5#2) false].
+Proof. repeat split; reflexivity. Qed.
+Print Assumptions C08_all_rates_groups.
+End C08_all_rates.
